@@ -548,7 +548,7 @@ def apply(res, f, prop):
     bad = [r for r in a["selftest"] if not r.get("ok") and "skipped" not in r]
     if bad:
         raise Inconclusive("tree-rewrite comparison failed its self-test: %s" % bad[:2])
-    res.floor("tree constructors / transformers analysed", a["candidates"], 40)
+    res.floor("tree constructors / transformers analysed", a["candidates"], 30)
     undecided = [(p, rw["when"][:2]) for p, r in a["functions"].items() for rw in r["rewrites"] if rw.get("differences") is None]
     skipped = [(p, r["skipped"]) for p, r in a["functions"].items() if r["skipped"]]
     return {
